@@ -38,6 +38,10 @@ func runC12(c *Ctx) {
 	c.copyRule("sbom.(*NodeList).Copy", "NodeList")
 	c.floor("copy-field-exhaustive", 43, "26+3+6+5+3 schema fields")
 	aliasRules(c)
+	// "compares equal to its source": the loops a copy is built with take every element
+	c.rule("loop-totality", loopRuleText)
+	c.loopTotality("loop-totality", pkgFilter(c.reachDecls("loop-totality", "sbom.(*Node).Copy", "sbom.(*NodeList).Copy", "sbom.(*Person).Copy", "sbom.(*ExternalReference).Copy", "sbom.(*Edge).Copy"),
+		"sbom.(*Node).Copy", "sbom.(*NodeList).Copy", "sbom.(*Person).Copy", "sbom.(*ExternalReference).Copy", "sbom.(*Edge).Copy", "sbom.copy"), loopPolicies, commonSkips)
 	timestampPresenceRule(c, "timestamp-presence-by-nil", pkgFilter(c.reachDecls("timestamp-presence-by-nil", "sbom.(*Node).Copy", "sbom.(*NodeList).Copy", "sbom.(*Person).Copy", "sbom.(*ExternalReference).Copy", "sbom.(*Edge).Copy"), "sbom."))
 }
 
@@ -58,6 +62,7 @@ func runC13(c *Ctx) {
 	c.readsAllRule("encode-exhaustive", "sbom.(*ExternalReference).flatString", "ExternalReference", false)
 	c.readsAllRule("encode-exhaustive", "sbom.(*NodeList).Equal", "NodeList", true)
 	c.floor("encode-exhaustive", 43, "26+3+6+5+3 schema fields")
+	encodingHistoryFree(c, "encoding-history-free", "sbom.(*Node).flatString", "sbom.(*Edge).flatString", "sbom.(*Person).flatString", "sbom.(*ExternalReference).flatString")
 	for _, f := range []string{"sbom.(*Node).flatString", "sbom.(*Edge).flatString", "sbom.(*Person).flatString",
 		"sbom.(*ExternalReference).flatString", "sbom.(*NodeList).Equal", "sbom.flatStringStrSlice", "sbom.flatStringMap"} {
 		c.sortedBeforeSinkRule(f)
@@ -84,6 +89,8 @@ func runC14(c *Ctx) {
 	// the list helper compares nested messages through their equality encoding: a field the
 	// encoding reads under the wrong key is a difference Diff cannot see
 	schemaMapKeyRule(c, c.reachDecls("schema-map-key", "sbom.(*Node).Diff", "sbom.(*Person).flatString", "sbom.(*ExternalReference).flatString"))
+	// the list helper keys nested messages by their equality encoding
+	encodingHistoryFree(c, "encoding-history-free", "sbom.(*Person).flatString", "sbom.(*ExternalReference).flatString")
 	// "the reported additions and removals suffice to rebuild the second node from the first":
 	// only while the first (and second) node still are what they were — Diff and its helpers build
 	// their results in fresh storage, never by filtering an operand's slice or map in place
